@@ -40,9 +40,9 @@ Definition freal_star (x : float) : float :=
 Definition fvit_add (x y : float) : float := f_max x y.
 Definition fvit_mul (x y : float) : float := f_nan_to_num (x + y) neg_infinity infinity neg_infinity.
 Definition fvit_sub (x y : float) : float := x.
-Definition fvit_star (x : float) : float := if 0 <=? x then infinity else 0.
-(** the repair recommended for F2 *)
-Definition fvit_star_fixed (x : float) : float := if 0 <? x then infinity else 0.
+Definition fvit_star (x : float) : float := if 0 <? x then infinity else 0.   (* where(x > 0, inf, 0.) *)
+(** the formula before the repair of F2 (x >= 0); not the model of the current code *)
+Definition fvit_star_old (x : float) : float := if 0 <=? x then infinity else 0.
 Definition fvit_from_int (n : nat) : float := if Nat.ltb 0 n then 0 else neg_infinity.
 Definition freal_from_int (n : nat) : float := of_uint63 (Uint63.of_Z (Z.of_nat n)).   (* exact below 2^53 *)
 
